@@ -460,10 +460,12 @@ class CDSInterval(AbstractFeatureInterval):
         over every codon, but this is slower because it has a lot of object instantiation overhead. However,
         if those objects have already been instantiated and cached, then it is faster to just re-use them.
         """
-        if self._chunk_relative_codon_locations_cached is True:
+        # re-use the cached codon locations only when there are any; a CDS without a complete codon takes the direct path
+        # below, so that it answers (or refuses for lack of a sequence) exactly as it does before the codons were listed
+        if self._chunk_relative_codon_locations_cached is True and self.chunk_relative_codon_locations:
             codons = (str(codon_location.extract_sequence()) for codon_location in self.chunk_relative_codon_locations)
             seq = "".join(codons)
-            return seq
+            return Sequence(seq, Alphabet.NT_EXTENDED, validate_alphabet=False)
         if self.num_blocks > 1:
             window_fn = self._prepare_multi_exon_window_for_scan_codon_locations
         else:
